@@ -266,12 +266,29 @@ macro_rules! with_arg {
     };
 }
 
+/// the two operands of compare: for the borrowed argument kinds, operands one of which is contained in the other are
+/// passed as two views of ONE buffer (a stored string and a prefix / field of it); the result may depend on the content
+/// of the operands only, never on where they live
+fn cmp_views<R>(kind: ArgKind, a: &str, b: &str, f: impl FnOnce(&str, &str) -> R) -> R {
+    if matches!(kind, ArgKind::Str | ArgKind::CowBorrowed) && a != b {
+        if let Some(at) = b.find(a) {
+            let buf = b.to_string();
+            return f(&buf[at..at + a.len()], &buf[..]);
+        }
+        if let Some(at) = a.find(b) {
+            let buf = a.to_string();
+            return f(&buf[..], &buf[at..at + b.len()]);
+        }
+    }
+    f(a, b)
+}
+
 fn op_on<P: Profile + Rules>(p: &P, op: &str, kind: ArgKind, args: &[String]) -> (Value, Option<bool>) {
     let s = args[0].as_str();
     match op {
         "prepare" => with_arg!(kind, s, |a| str_result_cow(p.prepare(a))),
         "enforce" => with_arg!(kind, s, |a| str_result_cow(p.enforce(a))),
-        "compare" => (bool_result(p.compare(s, args[1].as_str())), None),
+        "compare" => (cmp_views(kind, s, args[1].as_str(), |x, y| bool_result(p.compare(x, y))), None),
         "width_mapping_rule" => with_arg!(kind, s, |a| str_result_cow(p.width_mapping_rule(a))),
         "additional_mapping_rule" => with_arg!(kind, s, |a| str_result_cow(p.additional_mapping_rule(a))),
         "case_mapping_rule" => with_arg!(kind, s, |a| str_result_cow(p.case_mapping_rule(a))),
@@ -286,7 +303,7 @@ fn op_static<P: PrecisFastInvocation>(op: &str, kind: ArgKind, args: &[String]) 
     match op {
         "prepare" => with_arg!(kind, s, |a| str_result_cow(P::prepare(a))),
         "enforce" => with_arg!(kind, s, |a| str_result_cow(P::enforce(a))),
-        "compare" => (bool_result(P::compare(s, args[1].as_str())), None),
+        "compare" => (cmp_views(kind, s, args[1].as_str(), |x, y| bool_result(P::compare(x, y))), None),
         _ => (json!({"toolerr": "unknown static op"}), None),
     }
 }
